@@ -448,27 +448,26 @@ theorem dispatch_tlsOnly (v : Nat) :
     have b : ¬ (0x0300 ≤ v ∧ v ≤ 0x0303) := by omega
     simp [dispatch, mv_high v h, a, b, h]
 
-/-- GMSSL-only mode: the same versions are let through, all served by the GMSSL code (a hello above 0x0101 gets a
-    ServerHello with a TLS version number and a GMSSL suite, which no conforming client continues). -/
-theorem dispatch_gmOnly (v : Nat) :
-    dispatch .gmOnly v =
-      if v = 0x0101 then .gm 0x0101 else if 0x0300 ≤ v ∧ v ≤ 0x0303 then .gm v
-      else if 0x0303 < v then .gm 0x0303 else .reject := by
-  rcases ranges v with h | h | ⟨h1, h2⟩ | ⟨h1, h2⟩ | h
-  · have a : ¬ v = 0x0101 := by omega
-    have b : ¬ (0x0300 ≤ v ∧ v ≤ 0x0303) := by omega
-    have d : ¬ 0x0303 < v := by omega
-    simp [dispatch, mv_low v h, a, b, d]
+/-- the version test of the GMSSL handshake (repaired), with the default limits: 0x0101 passes, at 0x0101; nothing
+    else does -/
+theorem gmServerVersion_default (v : Nat) :
+    gmServerVersion (mutualVersion v) v = if v = 0x0101 then some 0x0101 else none := by
+  by_cases h : v = 0x0101
   · subst h; decide
-  · have a : ¬ v = 0x0101 := by omega
-    have b : ¬ (0x0300 ≤ v ∧ v ≤ 0x0303) := by omega
-    have d : ¬ 0x0303 < v := by omega
-    simp [dispatch, mv_gap v h1 h2, a, b, d]
-  · have a : ¬ v = 0x0101 := by omega
-    simp [dispatch, mv_tls v h1 h2, a, h1, h2]
-  · have a : ¬ v = 0x0101 := by omega
-    have b : ¬ (0x0300 ≤ v ∧ v ≤ 0x0303) := by omega
-    simp [dispatch, mv_high v h, a, b, h]
+  · rw [if_neg h]
+    unfold gmServerVersion
+    cases mutualVersion v with
+    | none => rfl
+    | some w => simp [versionGMSSL, h]
+
+/-- GMSSL-only mode (repaired): the GMSSL code runs for client_version 0x0101 alone, at version 0x0101; every other
+    value — in particular 0x0300..0x0303 and everything above, which `mutualVersion` lets through or clamps and
+    which the code before the repair served with a GM suite at a TLS version number — is rejected.
+    (Statement changed by the repair: it used to read `… else if 0x0300 ≤ v ∧ v ≤ 0x0303 then .gm v else if
+    0x0303 < v then .gm 0x0303 else .reject`.) -/
+theorem dispatch_gmOnly (v : Nat) :
+    dispatch .gmOnly v = if v = 0x0101 then .gm 0x0101 else .reject := by
+  by_cases h : v = 0x0101 <;> simp [dispatch, gmServerVersion_default, h]
 
 /-- Below GMSSL (0x0101) and strictly between GMSSL and SSL 3.0 nothing is accepted, in any mode. -/
 theorem dispatch_reject_low (mode : Mode) (v : Nat) (h : v < 0x0101 ∨ (0x0101 < v ∧ v < 0x0300)) :
